@@ -226,7 +226,10 @@ def boundary_stream(ctx, res, n):
     fixed = [{"k": "url", "required": False}, {"k": "hostname", "required": False}, {"k": "hostname", "required": False, "allow_ipv4": True},
              {"k": "ipv4addr", "required": False}, {"k": "ipv4net", "required": False}, {"k": "int", "required": False, "min": -(2 ** 53), "max": 2 ** 53},
              {"k": "port", "required": False}, {"k": "hostname", "required": False, "allow_ipv4": False}, {"k": "hostname", "required": False, "min_len": 5},
-             {"k": "hostname", "required": False, "max_len": 4, "allow_ipv4": False}, {"k": "bool", "required": False}, {"k": "float", "required": False, "min": 0.5}]
+             {"k": "hostname", "required": False, "max_len": 4, "allow_ipv4": False}, {"k": "bool", "required": False}, {"k": "float", "required": False, "min": 0.5},
+             # choices next to a case transformation: what is held is one of the declared choices, as declared
+             {"k": "string", "required": False, "case": "lower", "choices": ["Alpha", "beta", "GAMMA"]}, {"k": "string", "required": False, "case": "upper", "choices": ["Alpha", "beta", "GAMMA"]},
+             {"k": "string", "required": False, "case": "lower", "strip": True, "choices": ["dev", "Prod"]}, {"k": "loglevel", "required": False, "levels": ["DEBUG", "info"]}]
     import argparse
     for _ in range(n * 8 + len(fixed)):
         if done >= n + len(fixed):
